@@ -80,6 +80,10 @@ CHECKS = {
             "DESIGN.md §3 C17",
             "Alphabet of 14 traffic events (object packets without FTI / with in-band FTI / with the close flag / far SBN for fixed and fresh TOIs, first fragment of an FDT instance for fixed and fresh ids, complete FDT with FDT-only OTI, other TSI, other endpoint, object-timeout+cleanup, session-timeout+cleanup) x cache {3 packets, 64 kB} x max_objects_error {0,1,2}: all sequences to depth 4 (quick) / 5 (thorough); every event and ordered pair repeated max(400, 8*cache/100) times; four sweeps keeping one object undecodable or unwritable for 800/2000 packets. Oracle: failed-object list <= max_objects_error per session in every state; heap held for one object <= cache + two blocks + stated bookkeeping; no higher heap peak in the last quarter of a pumping run than in the quarter before; after both time-outs and cleanup nb_objects() = 0 and the heap is back to the baseline + 4 kB.",
             "Trusted: counting allocator (receiver thread only, harness allocations excluded), bookkeeping allowances stated in the evidence; the number of objects in reception at once is bounded by the time-out, not by a configured count."),
+    "C05": ("exploration", "exhaustive enumeration of a Content-Location grammar to a depth bound, each string delivered through a real session into the real ObjectWriterFS inside a sandbox tree with canaries", "gridx",
+            "DESIGN.md §3 C05",
+            "Every Content-Location = 9 prefixes (file:///, file://host/, http://h/, x:, x:/, x://h/, none, /, //) x every sequence of at most 3 (quick) / 5 (thorough) segments from {n, ., .., empty, %2e%2e, ..%2f, a\\..\\b, an absolute path inside the sandbox} is put in a harness-written FDT and delivered into ObjectWriterFS for the outcomes complete, error (MD5 mismatch) and interrupted; afterwards the sandbox tree minus the destination directory (7 levels of ancestors and siblings holding canary and same-named victim files) must be bit-identical.",
+            "Trusted: the tree scan (an escape above the 7 sandbox levels is impossible with at most 5 segments plus the prefixes used); random strings are not used; symlinks planted inside the destination are out of scope."),
 }
 
 NOT_YET = {}
